@@ -676,22 +676,30 @@ func run(c Case) (o hx.Outcome) {
 	// seed offers either lies behind the new end (invalid once the target has its length: skipped / regenerated) or is
 	// copied front to back from further behind in the same file, which a single worker never overwrites before reading it
 	aliasLive := c.AliasLonger && aliasSeed && len(c.Seeds) == 1 && n == 1 && storeComplete && incons == "" && !midRunDone && c.Action%3 != 0
-	if aliasLive { // ... which holds only if no chunk occurs twice, in the blob or in the old version
-		seen := map[desync.ChunkID]bool{}
+	if aliasLive { // ... which holds only if every place at which the old version offers a chunk of the blob is exactly k bytes behind that chunk's place in the blob (no chunk twice, no match at another phase in self-similar data)
+		k := uint64(0)
+		if len(c.Seeds[0].Edits) == 1 {
+			k = uint64(c.Seeds[0].Edits[0].Ins)
+		}
+		at := map[desync.ChunkID][]uint64{}
 		for _, ch := range idx.Chunks {
-			if seen[ch.ID] {
+			at[ch.ID] = append(at[ch.ID], ch.Start)
+		}
+		for id, starts := range at {
+			if len(starts) != 1 {
 				aliasLive = false
 			}
-			seen[ch.ID] = true
+			_ = id
 		}
-		seen = map[desync.ChunkID]bool{}
 		for _, b := range built {
 			for _, ch := range b.index.Chunks {
-				if seen[ch.ID] {
+				if starts, ok := at[ch.ID]; ok && (len(starts) != 1 || ch.Start != starts[0]+k) {
 					aliasLive = false
 				}
-				seen[ch.ID] = true
 			}
+		}
+		if k == 0 {
+			aliasLive = false
 		}
 	}
 	if aliasLive {
